@@ -20,6 +20,7 @@ RULE = ("Hypothesis-generated (key, token list): keys are (a) fresh keygen() pai
         "PKCS#8 PEM written to disk, write_public_keyfile), also with public exponent 3 and 65537; tokens: all-zero, all-0xFF, drawn 20-byte strings. the login name and host name keygen sees are drawn per case (none/empty/a name; os.getlogin raising as in a daemon). Oracle: .pub == base64(524-byte blob) + ' user@host' naming that login and host whenever they exist; "
         "blob: 64 words, n*n0inv == -1 mod 2^32, little-endian modulus == n, rr == 2^4096 mod n, exponent == e (all recomputed with Python integers); for each of the three signer classes loaded from the "
         "files, Sign(token) == the unique RSASSA-PKCS1-v1_5 signature of the token taken as a SHA-1 digest (pow(EM,d,n), own EMSA encoding) and cryptography's verify(..., Prehashed(SHA1)) accepts it. "
+        "Part `handshake`: connect() (sync and async) with each signer class against the device model, which issues drawn tokens (all-zero, all-0xFF, leading/trailing zero bytes, random) and verifies every AUTH(SIGNATURE) as adbd does under the blob's key; optionally a key the device does not know is tried first: the known key is accepted at its first signature and the public key is never offered. "
         "Non-trivial: every (key, token) with a drawn token. Distinct = (key fingerprint, token).")
 ASSUMPTIONS = ["Python integer arithmetic and cryptography's verifier are the trusted base", "keygen() uses OpenSSL randomness (not seedable): a failing key's PEM is stored in the replay file"]
 
@@ -253,7 +254,87 @@ def _check_case(case, environ):
 
 
 def replay(part, case):
+    if part == "handshake":
+        return check_handshake(case)[0]
     return check_case(case)[0]
+
+
+# ----------------------------------------------------------------------------- the signers inside a real handshake
+_HS_KEYS = {}
+
+
+def hs_cases():
+    tok = st.one_of(st.sampled_from([b"\0" * 20, b"\xff" * 20, b"\x17" * 19 + b"\0", b"\0" + b"\x17" * 19, b"\0\0" + bytes(range(16)) + b"\0\0", bytes(range(20))]),
+                    st.binary(min_size=20, max_size=20))
+    return st.fixed_dictionaries({"api": st.sampled_from(["sync", "async"]), "signer": st.integers(0, 2), "tokens": st.lists(tok, min_size=1, max_size=2),
+                                  "reject_first": st.booleans()})
+
+
+def check_handshake(case):
+    """connect() against the device model, which issues the drawn tokens and verifies each AUTH(SIGNATURE) as adbd does (RSASSA-PKCS1-v1_5 over the token taken as
+    a SHA-1 digest, under the public key decoded from the .pub blob): a known key is accepted at its first signature -- the public key is never offered."""
+    own_dir = None
+    if _REUSED and os.path.isdir(os.path.join(_REUSED[0], "hs")):
+        d = os.path.join(_REUSED[0], "hs")            # generated once by run() before the shards are forked
+    else:
+        d = own_dir = tempfile.mkdtemp(prefix="advf-c17-hs-")       # replay of a single case
+        make_hs_keys(d)
+    try:
+        return _check_handshake(case, d)
+    finally:
+        if own_dir:
+            shutil.rmtree(own_dir, ignore_errors=True)
+
+
+def make_hs_keys(d):
+    from adb_shell.auth import keygen as kg
+    os.makedirs(d, exist_ok=True)
+    kg.keygen(os.path.join(d, "known"))
+    kg.keygen(os.path.join(d, "unknown"))
+
+
+def _check_handshake(case, d):
+    from adb_shell.auth.sign_pythonrsa import PythonRSASigner
+    from adb_shell.auth.sign_cryptography import CryptographySigner
+    from adb_shell.auth.sign_pycryptodome import PycryptodomeAuthSigner
+    from .. import runner
+    if d not in _HS_KEYS:
+        with open(os.path.join(d, "known.pub"), "rb") as f:
+            f_ = wire.decode_android_pubkey(base64.b64decode(f.read().split(b" ")[0]))
+        _HS_KEYS[d] = (f_["n"], f_["e"])
+    n, e = _HS_KEYS[d]
+
+    def verify(sig, token):
+        if len(sig) != 256:
+            return None
+        em = pow(int.from_bytes(sig, "big"), e, n).to_bytes(256, "big")
+        return "known" if em == wire.emsa_pkcs1_v15_sha1(token, 256) else None
+
+    def load(name):
+        path = os.path.join(d, name)
+        if case["signer"] == 0:
+            with open(path) as f, open(path + ".pub") as g:
+                return PythonRSASigner(g.read(), f.read())
+        if case["signer"] == 1:
+            return CryptographySigner(path)
+        return PycryptodomeAuthSigner(path)
+
+    keys = ([load("unknown")] if case["reject_first"] else []) + [load("known")]
+    scn = {"api": case["api"], "device": {"auth": {"mode": "key", "accept": "known"}, "tokens": case["tokens"]}, "_verify": verify,
+           "transport": {"flavour": "raises"}, "connect": {"keys": keys, "auth_timeout_s": 0.5}, "ops": []}
+    out = runner.run(scn)
+    info = {"classes": ["handshake", out.api, ["PythonRSASigner", "CryptographySigner", "PycryptodomeAuthSigner"][case["signer"]]], "nontrivial": True,
+            "sample": {"api": out.api, "signer": case["signer"], "tokens": [t.hex() for t in case["tokens"]], "reject_first": case["reject_first"]}}
+    res = out.results[0]
+    if "exc" in res:
+        return Violation("handshake-raised", "connect() with a key the device knows raised %s: %s (tokens %r)" % (res["exc"], res["msg"], [t.hex() for t in case["tokens"]])), info
+    if out.sim.pubkey_offered is not None:
+        return Violation("known-key-signature-rejected", "the device verifies signatures as adbd does and knows the key, yet the host ended up offering its public key; signatures seen: %r"
+                         % ([(t.hex(), acc) for t, _, _, acc, _ in out.sim.sig_log],)), info
+    want = 2 if case["reject_first"] else 1
+    if len(out.sim.sig_log) != want or not out.sim.sig_log[-1][3]:
+        return Violation("known-key-signature-rejected", "expected %d signature(s), the last one accepted; got %r" % (want, [(t.hex(), acc) for t, _, _, acc, _ in out.sim.sig_log])), info
+    return None, info
 
 
 def run(tier, seed):
@@ -269,9 +350,11 @@ def run(tier, seed):
 
     _REUSED.append(tempfile.mkdtemp(prefix="advf-c17-reused-"))
     try:
+        make_hs_keys(os.path.join(_REUSED[0], "hs"))
         col = harness.corpus_part(ID, "keys", check_case)
         col.merge(harness.hypothesis_part("keys", cases(), fn, 160 if quick else 3200, seed, shrink=False,
                                           hash_of=None))
+        col.merge(harness.hypothesis_part("handshake", hs_cases(), check_handshake, 640 if quick else 12800, seed, shrink=False))
     finally:
         shutil.rmtree(_REUSED.pop(), ignore_errors=True)
     return harness.finish(ID, tier, seed, LEVEL, col, RULE, ASSUMPTIONS, t0, extra={"note": "evaluations counts (key, token-list) cases; each case signs every token with all three signers"})
